@@ -4,7 +4,7 @@ import numpy as np
 from vlib import caseio, gen
 
 ID = "C04"
-COQ_TARGETS = ["C04_Extract.vo"]
+COQ_TARGETS = ["C04_Extract.vo", "C04_Proofs.vo"]
 COQ_PREFIXES = ["C04", "C03", "C01", "C02"]
 EXTRACTED = "C04_model"
 DRIVER = "drv_C04.ml"
@@ -16,14 +16,14 @@ REQUIRED_THEOREMS = ["C04_predict_additive", "C04_predict_augmented", "C04_corre
 RULE = ("cases drawn from one seeded stream: kinds predict / correct, additive and generic (noise-input, augmented) constructors, "
         "n in 1..5, m in 1..3 (also m > n), noise inputs q in 1..3, components 1..3, P_i PSD (prediction: incl. singular; correction: SPD with chosen "
         "condition number <= 1e4), F random / singular / identity, H random / rank-deficient / zero row / selector / zero, B, D random incl. rank-deficient, "
-        "R SPD, alpha in [0.1,2], beta in [0,3], kappa in [0,3]; skip flags, missing measurement, failing prediction; "
+        "R SPD, alpha in [0.1,2], beta in [0,3], kappa in [0,3]; skip flags, missing measurement, failing prediction, each also after an earlier successful correction by the same object; "
         "non-trivial = components >= 2 or generic or rank-deficient H/F or singular P or an early-return path; "
         "distinct by (kind, generic, n, m, q, comps, matrix kind, path)")
 TRUSTED_BASE = ["Coq 8.16.1 kernel (coqc); no axioms (Print Assumptions: closed under the global context)",
                 "MathComp 1.15 matrix theory",
                 "extraction (ExtrOcamlBasic only) and ocaml/float_ops.ml, ocaml/drv_C04.ml (incl. its Jacobi eigen-iteration used as square-root oracle), ocaml/caseio.ml",
                 "ListOps list instance of MatOps (structural operations and Gauss-Jordan inverse/determinant, unproved)",
-                "cpp/h_C04.cpp harness and its linear models; comparison tolerances rtol 1e-7 * cond * (1 + max|weight|)",
+                "cpp/h_C04.cpp harness and its linear models; comparison tolerances rtol 1e-7 * cond + 1e-12 * max|weight| (UKF vs KF), 1e-9 * cond + 1e-12 * max|weight| (implementation vs model)",
                 "correspondence is sampled: agreement is established on the generated cases only",
                 "IEEE rounding is not modelled (theorems over an exact real field)"]
 ASSUMPTIONS = ["square-root oracle: P symmetric PSD => A A^T = P (Eigen jacobiSvd; checked on the implementation's sigma points by C03, on the model side here)",
@@ -119,6 +119,9 @@ def gen_case(rng, k):
     c.mat_shape("means", n, comps, means).mat_shape("covs", n, n * comps, np.hstack(covs)).mat_shape("weights", comps, 1, w)
     c.mat_shape("old_means", n, old_comps, gen.matrix(rng, n, old_comps, 7.0)).mat_shape("old_covs", n, n * old_comps, gen.matrix(rng, n, n * old_comps, 2.0))
     c.mat_shape("old_weights", old_comps, 1, old_w)
+    warm = rng.randint(0, 1)
+    c.meta["warm"] = warm
+    c.int("warm", warm).mat_shape("y0", m, 1, gen.matrix(rng, m, 1, 5.0))
     return c
 
 
@@ -129,12 +132,14 @@ def generate(rng, tier):
 def nontrivial(c):
     m = c.meta
     if int(m["comps"]) >= 2 or int(m["generic"]) or m["path"] != "step" or "rankdef" in m["mkind"] or "zero" in m["mkind"] or "singular" in m["mkind"] or int(m.get("singular", 0)):
-        return (m["kind"], m["generic"], m["n"], m.get("m", "-"), m["q"], m["comps"], m["mkind"], m["path"])
+        return (m["kind"], m["generic"], m["n"], m.get("m", "-"), m["q"], m["comps"], m["mkind"], m["path"], m.get("warm", "-"))
     return None
 
 
 def tol(c, mag, r=1e-7):
-    return r * float(c.meta["cond"]) * float(c.meta["wmag"]) * max(1.0, mag)
+    """rtol * cond (conditioning of the innovation covariance / size of F P F^T + Q) plus the rounding
+    amplification of the unscented sums, 1e-12 * max|weight|"""
+    return (r * float(c.meta["cond"]) + 1e-12 * float(c.meta["wmag"])) * max(1.0, mag)
 
 
 def comp_fields(k):
@@ -159,7 +164,7 @@ def compare(c, impl, model):
     if c.kind == "correct":
         d += caseio.compare_fields(impl, model, ["lik_valid"], 0, 0)
         if impl.get("lik_valid") == 1 and model.get("lik_valid") == 1:
-            if not caseio.close(impl.get("lik"), model.get("lik"), 1e-300, 1e-9 * float(c.meta["cond"]) * float(c.meta["wmag"])):
+            if not caseio.close(impl.get("lik"), model.get("lik"), 1e-300, 1e-9 * float(c.meta["cond"]) + 1e-12 * float(c.meta["wmag"])):
                 d.append("lik: impl %s model %s" % (impl.get("lik"), model.get("lik")))
         for i in range(int(c.meta["comps"])):
             if not caseio.close(impl.get("kf_lik%d" % i), model.get("kf_lik%d" % i), 1e-300, 1e-9 * float(c.meta["cond"])):
@@ -183,8 +188,12 @@ def oracle(c, impl, model):
         for i in range(comps):
             if not (np.array_equal(impl.get("mean%d" % i).reshape(-1), means[:, i]) and np.array_equal(impl.get("cov%d" % i), covs[:, i * n:(i + 1) * n])):
                 v.append((sig + ":%s:belief-changed" % path, "component %d differs from the input belief" % i)); break
-        if c.kind == "correct" and path in ("skip", "no_measurement") and impl.get("lik_valid") != 0:
-            v.append((sig + ":%s:likelihood-without-correction" % path, "a likelihood is reported although no correction took place"))
+        warm = int(m.get("warm", 0))
+        if c.kind == "correct" and path in ("no_measurement", "fail") and impl.get("lik_valid") != 0:
+            v.append((sig + ":%s:likelihood-without-correction%s" % (path, ":after-earlier-step" if warm else ""),
+                      "a likelihood is reported after a correction that could not use the measurement"))
+        if c.kind == "correct" and path == "skip" and impl.get("lik_valid") != warm:
+            v.append((sig + ":skip:likelihood-state-touched", "a skipped correction changed what getLikelihood reports (lik_valid %s, earlier step %d)" % (impl.get("lik_valid"), warm)))
         return v
     exp_comps = comps if c.kind == "predict" else c.get("old_means").shape[1]
     if impl.get("components") != exp_comps:
@@ -218,7 +227,7 @@ def oracle(c, impl, model):
             else:
                 for i in range(comps):
                     kl = impl.get("kf_lik%d" % i)
-                    if not caseio.close(lik[i], kl, 1e-300, 1e-7 * float(m["cond"]) * float(m["wmag"])):
+                    if not caseio.close(lik[i], kl, 1e-300, 1e-7 * float(m["cond"]) + 1e-12 * float(m["wmag"])):
                         v.append((sig + ":likelihood-differs-from-kf:comp%s" % ("0" if i == 0 else "k"), "component %d: ukf %r kf %r" % (i, lik[i], kl)))
     if model is not None and model.get("sqrt_residual", 0.0) > 1e-10:
         v.append(("C04:model-sqrt-oracle-contract", "residual %.3g" % model.get("sqrt_residual")))
@@ -227,7 +236,7 @@ def oracle(c, impl, model):
 
 def histogram(cases):
     h = {}
-    for key in ("kind", "generic", "n", "m", "q", "comps", "path", "mkind"):
+    for key in ("kind", "generic", "n", "m", "q", "comps", "path", "mkind", "warm"):
         hk = {}
         for c in cases:
             if key in c.meta:
